@@ -132,6 +132,221 @@ example : validateModel (i32zeros 3) = .ok ∧ RustInv (i32zeros 3) := by
   · intro b hb; simp [i32zeros] at hb; subst hb; simp [USIZE]
   · intro n hn; simp [i32zeros] at hn
 
+/-- **C09 for Binary / LargeBinary**: acceptance ⇒ offsets present, non-negative, monotone and
+within the values buffer for every visible slot. -/
+theorem validate_sound_binary {d : ArrayData} {large : Bool} (h : validateData d = .ok)
+    (hi : RustInv d) (ht : d.type = .binary large) : LocalWF d ∧ d.children = [] := by
+  obtain ⟨hh, hn⟩ := validate_head_of_data h
+  obtain ⟨hv, hvals⟩ := validateValues_of_data h
+  have hc : d.children = [] := validate_children_nil_bin hv (Or.inl ⟨large, ht⟩)
+  refine ⟨?_, hc⟩
+  unfold LocalWF
+  refine ⟨nullsOk_of_validate hh hn hi, ?_⟩
+  obtain ⟨_, _, hlen, _, _⟩ := validateHead_ok hh
+  rw [ht] at hlen ⊢
+  simp only [layout] at hlen ⊢
+  obtain ⟨offs, data, hb⟩ := two_buffers (by simpa using hlen)
+  refine ⟨hc, offs, data, hb, ?_⟩
+  unfold validateValues at hvals
+  rw [ht] at hvals
+  simp only [hb] at hvals
+  rcases eachOffset_ok hvals with h0 | h1
+  · exact Or.inl h0
+  · exact Or.inr (fun i hi => (h1 i hi).1)
+
+/-- **C09 for Dictionary arrays**: acceptance ⇒ every key at a valid slot addresses a
+dictionary value. -/
+theorem validate_sound_dict {d : ArrayData} {kw : Nat} {signed : Bool} {value : DType}
+    (h : validateData d = .ok) (hi : RustInv d) (ht : d.type = .dict kw signed value) : LocalWF d := by
+  obtain ⟨hh, hn⟩ := validate_head_of_data h
+  obtain ⟨hv, hvals⟩ := validateValues_of_data h
+  obtain ⟨⟨c, hc, hct, _⟩, hkw⟩ := validate_dict_parts hv ht
+  unfold LocalWF
+  refine ⟨nullsOk_of_validate hh hn hi, ?_⟩
+  obtain ⟨_, _, hlen, hbuf, _⟩ := validateHead_ok hh
+  rw [ht] at hlen hbuf ⊢
+  simp only [layout] at hlen hbuf ⊢
+  obtain ⟨keys, hb⟩ := one_buffer (by simpa using hlen)
+  rw [hb] at hbuf
+  simp only [buffersOk, Bool.and_true, decide_eq_true_eq] at hbuf
+  have hsz := satMul_le hbuf (hi.1 keys (by simp [hb]))
+  refine ⟨keys, c, hb, hc, hct, hkw, by rw [Nat.add_comm]; exact hsz, ?_⟩
+  unfold validateValues at hvals
+  rw [ht] at hvals
+  simp only [hb, hc] at hvals
+  split at hvals
+  · simp at hvals
+  · unfold checkBounds at hvals
+    rw [errIf_ok] at hvals
+    simp only [Bool.not_eq_false'] at hvals
+    rw [allBelow_iff] at hvals
+    intro i hi hvalid
+    have := hvals i hi
+    rw [hvalid] at this
+    simp only [Bool.not_true, Bool.false_or] at this
+    unfold keyOk
+    split at this
+    · rename_i k hk
+      rw [hk]
+      simp only [decide_eq_true_eq] at this ⊢
+      omega
+    · simp at this
+
+/-- **C09 for List / LargeList** (the child's own null count must be exact, which the
+recursive validation of the child establishes). -/
+theorem validate_sound_list {d : ArrayData} {large : Bool} {item : DType} {nullable : Bool}
+    (h : validateData d = .ok) (hi : RustInv d) (ht : d.type = .list large item nullable)
+    (hchild : ∀ c, c ∈ d.children → NullsOk c) : LocalWF d := by
+  obtain ⟨hh, hn⟩ := validate_head_of_data h
+  obtain ⟨hv, hvals⟩ := validateValues_of_data h
+  obtain ⟨c, hc, hct, _⟩ := validate_list_parts hv ht
+  unfold LocalWF
+  refine ⟨nullsOk_of_validate hh hn hi, ?_⟩
+  obtain ⟨_, _, hlen, _, _⟩ := validateHead_ok hh
+  rw [ht] at hlen ⊢
+  simp only [layout] at hlen ⊢
+  obtain ⟨offs, hb⟩ := one_buffer (by simpa using hlen)
+  refine ⟨offs, c, hb, hc, hct, ?_, ?_⟩
+  · unfold validateValues at hvals
+    rw [ht] at hvals
+    simp only [hb, hc] at hvals
+    rcases eachOffset_ok hvals with h0 | h1
+    · exact Or.inl h0
+    · exact Or.inr (fun i hi => (h1 i hi).1)
+  · intro hnn
+    unfold validateNulls at hn
+    rw [andThen_ok] at hn
+    have h2 := hn.2
+    rw [ht] at h2
+    simp only [hc, hnn] at h2
+    unfold validateNonNullable at h2
+    simp only [Bool.false_eq_true, if_false, errIf_ok] at h2
+    have h0 : nullCountOf c = 0 := by simpa using h2
+    exact allValid_of_nullCount_zero (hchild c (by simp [hc])) h0
+
+/-- **C09 for Utf8 / LargeUtf8**: acceptance ⇒ offsets in range and monotone, and every visible
+string is well-formed UTF-8 — through *both* branches of `validate_utf8` (whole-buffer fast path
+with boundary tests at the start and the end of every string; per-string check otherwise). -/
+theorem validate_sound_utf8 {d : ArrayData} {large : Bool} (h : validateData d = .ok)
+    (hi : RustInv d) (ht : d.type = .utf8 large) : LocalWF d ∧ d.children = [] := by
+  obtain ⟨hh, hn⟩ := validate_head_of_data h
+  obtain ⟨hv, hvals⟩ := validateValues_of_data h
+  have hc : d.children = [] := validate_children_nil_bin hv (Or.inr ⟨large, ht⟩)
+  refine ⟨?_, hc⟩
+  unfold LocalWF
+  refine ⟨nullsOk_of_validate hh hn hi, ?_⟩
+  obtain ⟨_, _, hlen, _, _⟩ := validateHead_ok hh
+  rw [ht] at hlen ⊢
+  simp only [layout] at hlen ⊢
+  obtain ⟨offs, data, hb⟩ := two_buffers (by simpa using hlen)
+  refine ⟨hc, offs, data, hb, ?_⟩
+  unfold validateValues at hvals
+  rw [ht] at hvals
+  simp only at hvals
+  unfold validateUtf8 at hvals
+  simp only [hb] at hvals
+  split at hvals
+  · rename_i hwhole
+    rcases eachOffset_ok hvals with h0 | h1
+    · exact Or.inl h0
+    · right
+      intro i hi
+      obtain ⟨hp, a, b, ha, hbb, ha0, hb0, hab, hbl, hbd⟩ := h1 i hi
+      refine ⟨hp, ?_⟩
+      simp only [Bool.and_eq_true] at hbd
+      obtain ⟨v, hs, hvv⟩ := utf8Valid_slice (a := a.toNat) (b := b.toNat) hwhole (by omega) (by omega)
+        (isBoundary_of_isCharBoundary hbd.1) (isBoundary_of_isCharBoundary hbd.2)
+      unfold utf8SlotOk binValue
+      rw [ha, hbb]
+      simp [ha0, hb0, hs, hvv]
+  · rcases eachOffset_ok hvals with h0 | h1
+    · exact Or.inl h0
+    · right
+      intro i hi
+      obtain ⟨hp, a, b, ha, hbb, ha0, hb0, _, _, hbd⟩ := h1 i hi
+      refine ⟨hp, ?_⟩
+      unfold utf8SlotOk binValue
+      rw [ha, hbb]
+      simp only [ha0, hb0, and_self, if_true]
+      split at hbd
+      · rename_i v hs; rw [hs]; exact hbd
+      · simp at hbd
+
+/-- the types for which acceptance ⇒ well-formedness is proved -/
+def coveredType : DType → Bool
+  | .null | .bool | .prim _ | .fsb _ | .binary _ | .utf8 _ | .list _ _ _ | .dict _ _ _ => true
+  | _ => false
+
+mutual
+/-- every node has a covered type and satisfies the Rust type invariants -/
+def Covered : ArrayData → Prop
+  | ⟨t, l, o, n, bs, cs⟩ => coveredType t = true ∧ RustInv ⟨t, l, o, n, bs, cs⟩ ∧ CoveredAll cs
+def CoveredAll : List ArrayData → Prop
+  | [] => True
+  | c :: cs => Covered c ∧ CoveredAll cs
+end
+
+theorem localWF_of_wellFormed : ∀ (d : ArrayData), WellFormed d → LocalWF d
+  | ⟨_, _, _, _, _, _⟩, h => h.1
+
+theorem wellFormedAll_mem : ∀ (cs : List ArrayData), WellFormedAll cs → ∀ c, c ∈ cs → WellFormed c
+  | [], _, c, hc => by simp at hc
+  | x :: xs, h, c, hc => by
+    rcases List.mem_cons.mp hc with rfl | h'
+    · exact h.1
+    · exact wellFormedAll_mem xs h.2 c h'
+
+mutual
+/-- **C09, positive part (partial: trees built from Null, Boolean, primitives, FixedSizeBinary,
+Utf8/LargeUtf8, Binary/LargeBinary, List/LargeList, Dictionary).**  If the model of
+`ArrayData::validate_full` (equivalently `try_new` bottom-up) accepts, the layout is `WellFormed`,
+so the independent validator accepts too.  The remaining types are exactly those with the
+counterexamples above (Union, Struct, FixedSizeList, RunEndEncoded). -/
+theorem validate_sound_tree_partial : ∀ (d : ArrayData), validateModel d = .ok → Covered d → WellFormed d
+  | ⟨t, l, o, n, bs, cs⟩, h, hcov => by
+    unfold validateModel validateFull at h
+    rw [andThen_ok] at h
+    obtain ⟨hd, hkids⟩ := h
+    obtain ⟨hty, hinv, hcs⟩ := hcov
+    have hall : WellFormedAll cs := validate_sound_all_partial cs hkids hcs
+    refine ⟨?_, hall⟩
+    cases t with
+    | null => exact (validate_sound_fixed_partial hd hinv (Or.inl rfl)).1
+    | bool => exact (validate_sound_fixed_partial hd hinv (Or.inr (Or.inl rfl))).1
+    | prim w => exact (validate_sound_fixed_partial hd hinv (Or.inr (Or.inr (Or.inl ⟨w, rfl⟩)))).1
+    | fsb w => exact (validate_sound_fixed_partial hd hinv (Or.inr (Or.inr (Or.inr ⟨w, rfl⟩)))).1
+    | binary large => exact (validate_sound_binary hd hinv rfl).1
+    | utf8 large => exact (validate_sound_utf8 hd hinv rfl).1
+    | list large item nullable =>
+      exact validate_sound_list hd hinv rfl
+        (fun c hc => (localWF_of_wellFormed c (wellFormedAll_mem cs hall c hc)).1)
+    | dict kw signed value => exact validate_sound_dict hd hinv rfl
+    | fsl _ _ _ => simp [coveredType] at hty
+    | struct _ => simp [coveredType] at hty
+    | ree _ _ => simp [coveredType] at hty
+    | union _ _ => simp [coveredType] at hty
+theorem validate_sound_all_partial : ∀ (cs : List ArrayData), validateFullAll cs = .ok → CoveredAll cs → WellFormedAll cs
+  | [], _, _ => trivial
+  | c :: cs, h, hcov => by
+    unfold validateFullAll at h
+    rw [andThen_ok] at h
+    exact ⟨validate_sound_tree_partial c h.1 hcov.1, validate_sound_all_partial cs h.2 hcov.2⟩
+end
+
+/-- acceptance of a covered tree ⇒ the executable spec validator accepts -/
+theorem validate_accept_implies_spec_partial (d : ArrayData) (h : validateModel d = .ok) (hc : Covered d) :
+    wellFormedB d = true := (wellFormedB_iff d).mpr (validate_sound_tree_partial d h hc)
+
+/-- `["é", "a"]` as a Utf8 array behind one unused slot -/
+def exUtf8 : ArrayData := ⟨.utf8 false, 2, 1, none, [[0,0,0,0, 0,0,0,0, 2,0,0,0, 3,0,0,0], [0xc3, 0xa9, 0x61]], []⟩
+
+example : validateModel exUtf8 = .ok ∧ Covered exUtf8 := by
+  refine ⟨by decide, rfl, ⟨?_, ?_⟩, trivial⟩
+  · intro b hb
+    simp [exUtf8] at hb
+    rcases hb with rfl | rfl <;> simp [USIZE]
+  · intro n hn; simp [exUtf8] at hn
+
 /-- the executable validator decides the specification predicate (restated for the audit) -/
 theorem wellFormedB_correct (d : ArrayData) : wellFormedB d = true ↔ WellFormed d :=
   wellFormedB_iff d
